@@ -227,6 +227,24 @@ static const char *const rnd_time[] = {"1h", "30m", "15m", "1m", "10s", "-1h", "
 static const char *const ddiff_ofmts_date[] = {"%d", "%m mo %d d", "%w w %d d", "%y y %m mo", "%y-%m-%d", "%b", "%dd", "%w", "%m"};
 static const char *const ddiff_ofmts_dt[] = {"%S", "%dd %Hh %Mm %Ss", "%H:%M:%S", "%d %H", "%M", "%w w %d d %H h", "%rS", "%T", "%m mo %d d %S s"};
 
+/* zone handles and maps are cached by name: pairs in which the first name is a proper prefix of the second */
+static const char *const zone_prefix_pairs[][2] = {{"EST", "EST5EDT"}, {"MST", "MST7MDT"}, {"NZ", "NZ-CHAT"}, {"GMT", "GMT0"}, {"Etc/GMT-1", "Etc/GMT-10"},
+						  {"Etc/GMT-1", "Etc/GMT-14"}, {"Etc/GMT+1", "Etc/GMT+10"}, {"Etc/GMT+1", "Etc/GMT+12"}, {"GMT", "GMT-0"},
+						  {"America/Indiana", "America/Indianapolis"}};
+static inline void zone_pair(Rng &r, const char *&z1, const char *&z2)
+{
+	if (r.chance(1, 4)) {
+		size_t k = r.below(9);	/* the last pair's first member is a directory, not a zone */
+		z1 = zone_prefix_pairs[k][0];
+		z2 = zone_prefix_pairs[k][1];
+		if (r.chance(1, 5))
+			std::swap(z1, z2);
+		return;
+	}
+	z1 = inv_zones[r.below(n_inv_zones)];
+	z2 = inv_zones[r.below(n_inv_zones)];
+}
+
 struct Inv {
 	std::string tool;
 	std::vector<std::string> fixed;	/* argv without the tool name and without the values */
@@ -411,7 +429,8 @@ static inline Inv rand_inv(Rng &r, const GenOpt &go)
 	bool canzone = t != "ddiff" && t != "dgrep";
 	unsigned zk = (unsigned)r.below(100);
 	if ((!timeonly || iv.has_base || !go.want_full) && zk < 40) {
-		const char *z1 = inv_zones[r.below(n_inv_zones)], *z2 = inv_zones[r.below(n_inv_zones)];
+		const char *z1, *z2;
+		zone_pair(r, z1, z2);
 		if (zk < 18 && canzone) {
 			iv.fixed.push_back(r.chance(1, 2) ? "--zone" : "-z");
 			iv.fixed.push_back(z1);
